@@ -1,2 +1,85 @@
 //! Kani harnesses for unit rrl (see /verif/notes/AGENT-BRIEF.md for naming: full_*, bnd_*, cex_*).
+//!
+//! `Rrl`, its fields and the fields of `RrlParams` / `ReceivedInfo` are private to
+//! `crate::server`, so from this module (a child of the crate root) only the public
+//! API is reachable.  The contracts of the private functions are proved by Verus
+//! on the extracted bodies (unit `rrl`); the harnesses here are
+//!  * full_*: loop-free, full-domain cross-checks of the public parameter API;
+//!  * cex_*:  counterexample finder for the refill arithmetic (defect D12).  It
+//!            re-states ONE source line and is never counted as proof.
 #![allow(unused_imports, dead_code)]
+use crate::server::{RrlParamError, RrlParams};
+
+/// C26 (limit = rate x window never overflows): for ALL four u32 arguments,
+/// `RrlParams::new` accepts exactly when all are non-zero and every
+/// rate x window fits in u32.  Complete: loop-free, full-domain symbolic inputs.
+#[kani::proof]
+pub(crate) fn full_rrl_params_new_accepts_iff_limits_fit() {
+    let noerror: u32 = kani::any();
+    let nxdomain: u32 = kani::any();
+    let error: u32 = kani::any();
+    let window: u32 = kani::any();
+    let fits = |r: u32| (r as u64) * (window as u64) <= u32::MAX as u64;
+    let expect_ok = noerror != 0 && nxdomain != 0 && error != 0 && window != 0
+        && fits(noerror) && fits(nxdomain) && fits(error);
+    let r = RrlParams::new(noerror, nxdomain, error, window);
+    assert!(r.is_ok() == expect_ok);
+    match r {
+        Ok(_) => {}
+        Err(e) => {
+            if noerror == 0 { assert!(e == RrlParamError::NoerrorRateIsZero); }
+            else if nxdomain == 0 { assert!(e == RrlParamError::NxdomainRateIsZero); }
+            else if error == 0 { assert!(e == RrlParamError::ErrorRateIsZero); }
+            else if window == 0 { assert!(e == RrlParamError::WindowIsZero); }
+            else { assert!(e == RrlParamError::WindowIsTooLargeForRates); }
+        }
+    }
+}
+
+/// C27 (prefix lengths): for ALL u8 lengths the setters accept exactly the valid
+/// prefix lengths (<= 32 for IPv4, <= 64 for IPv6) and the size setter rejects
+/// exactly 0; no shift overflow / panic.  Complete: loop-free, full-domain.
+#[kani::proof]
+pub(crate) fn full_rrl_prefix_len_and_size_ranges() {
+    let mut p = RrlParams::new(1, 1, 1, 1).unwrap();
+    let l4: u8 = kani::any();
+    let l6: u8 = kani::any();
+    let size: usize = kani::any();
+    assert!(p.set_ipv4_prefix_len(l4).is_ok() == (l4 <= 32));
+    assert!(p.set_ipv6_prefix_len(l6).is_ok() == (l6 <= 64));
+    assert!(p.set_size(size).is_ok() == (size != 0));
+}
+
+/// D12 counterexample finder.  Source line (src/server/rrl.rs:378-380):
+///     entry.count = entry.count.saturating_sub(rate * since_last_refill.as_secs() as u32);
+/// `rate` is any rate RrlParams::new accepts (non-zero u32), `secs` any whole
+/// number of seconds a std Duration can hold (u64), `count` any u32.
+/// Obligation: the statement does not overflow and yields the token-bucket value
+/// max(0, count - rate*secs) computed without wrap-around.  FAILS (expected):
+/// Kani prints concrete (rate, secs, count).
+#[kani::proof]
+pub(crate) fn cex_refill_mul_overflow() {
+    let rate: u32 = kani::any();
+    kani::assume(rate != 0);
+    let secs: u64 = kani::any();
+    kani::assume(secs >= 1);
+    let count: u32 = kani::any();
+    // exactly the source expression (panics on overflow, as in a debug build)
+    let got = count.saturating_sub(rate * secs as u32);
+    let want = (count as u128).saturating_sub(rate as u128 * secs as u128) as u32;
+    assert!(got == want);
+}
+
+/// Same line with release-build semantics (wrapping multiply): the value is wrong
+/// even when nothing panics.
+#[kani::proof]
+pub(crate) fn cex_refill_wrapping_value() {
+    let rate: u32 = kani::any();
+    kani::assume(rate != 0);
+    let secs: u64 = kani::any();
+    kani::assume(secs >= 1);
+    let count: u32 = kani::any();
+    let got = count.saturating_sub(rate.wrapping_mul(secs as u32));
+    let want = (count as u128).saturating_sub(rate as u128 * secs as u128) as u32;
+    assert!(got == want);
+}
